@@ -65,7 +65,7 @@ struct IoFault : Profile {
     // The first cases of every batch are directed programs, one per storage layout: create the object, close, open again,
     // read it, rewrite it, read it, close.  Every layout's create, fetch, write-back and release paths then meet every
     // fault in every batch, however small (a random program reads a chunked dataset back only now and then).
-    static const int NDIRECTED = 14;
+    static const int NDIRECTED = 17;
     static void directed(std::vector<Op> &ops, Rng &r, int t)
     {
         int64_t ds = (int64_t)(r.next() >> 16), ds2 = (int64_t)(r.next() >> 16);
@@ -106,6 +106,19 @@ struct IoFault : Profile {
             ops.push_back(mkop(0, "vsappend", {0, 25, 0, ds2}));
             ops.push_back(mkop(0, "vsread", {0}));
             ops.push_back(mkop(0, "vgread", {0}));
+        }
+        else if (t >= 14) {
+            // several dataset ids are still open when the file is closed: SDend has to finish each of them and report the
+            // failure of any one (data seeds with (ds >> 3) % 4 == 1 leave the id open, see Mixed)
+            int64_t open1 = ((ds >> 5) << 5) | 8, open2 = ((ds2 >> 5) << 5) | 8;
+            if (t == 14)
+                ops.push_back(mkop(0, "sdnew", {0, 1, 4, 3, 0, open1, 2})); // chunked
+            else if (t == 15)
+                ops.push_back(mkop(0, "sdnew2", {0, 1, 4, 3, 0, open1, 0, 0})); // chunked + deflate
+            else
+                ops.push_back(mkop(0, "sdnew", {0, 1, 4, 3, 0, open1, 3})); // deflate
+            ops.push_back(mkop(0, "sdnew", {1, 0, 3, 2, 1, open2, 0}));
+            ops.push_back(mkop(0, "sdnew", {2, 0, 2, 2, 2, open2 + 32, 0}));
         }
         else if (t == 12) {
             ops.push_back(mkop(0, "grnew", {0, 4, 3, 1, ds}));
